@@ -322,3 +322,38 @@ Definition st_eqb (x y : st) : bool :=
   && map_eqb Z.eqb Z.eqb (ipc x) (ipc y)
   && map_eqb Z.eqb addr_eqb (gids x) (gids y)
   && map_eqb addr_eqb (eqb_list addr_eqb) (laddrs x) (laddrs y).
+
+(* ---- specification vocabulary of the theorems (Properties/C24.v) *)
+(* gnet's counter: the ids handed to `connected` never repeat *)
+Fixpoint connected_ids (ops : list op) : list Z :=
+  match ops with
+  | [] => []
+  | Connected _ id :: r => id :: connected_ids r
+  | _ :: r => connected_ids r
+  end.
+
+Definition live (s : st) (a : addr) (c : conn) : Prop := aget addr_eqb a (conns s) = Some c.
+
+Definition describes_live (s : st) : Prop :=
+  (* ipCounts[ip] = number of live connections of that ip *)
+  (forall ip, getz ip (ipc s) = count_ip ip (conns s)) /\
+  (* mirrors[m][ip] = p  iff  an introduced connection from ip has mirror m and listen port p *)
+  (forall m ip p, mirror_lookup s m ip = Some p <->
+     exists port c, live s (ip, port) c /\ c_state c = SIntroduced /\ c_mirror c = m /\ c_lport c = p) /\
+  (* gnetIDs[id] = a  iff  a is a connected / introduced connection with that gnet id *)
+  (forall id a, aget Z.eqb id (gids s) = Some a <->
+     exists c, live s a c /\ c_state c <> SPending /\ c_gid c = id) /\
+  (* a is listed under listenAddrs[k]  iff  a is live and its listen address is k; listed once *)
+  (forall k a, In a (getl k (laddrs s)) <-> exists c, live s a c /\ listen_key a c = Some k) /\
+  (forall k, NoDup (getl k (laddrs s))) /\
+  (* no empty inner map / list is kept *)
+  Forall (fun e : Z * list (Z * Z) => snd e <> []) (mirrors s) /\
+  Forall (fun e : addr * list addr => snd e <> []) (laddrs s) /\
+  NoDup (map fst (conns s)).
+
+(* removing every connection, one `remove` per live connection with its own id *)
+Definition remove_all_ops (s : st) : list op :=
+  map (fun p : addr * conn => Remove (fst p) (c_gid (snd p))) (conns s).
+
+Definition observably_empty (s : st) : Prop :=
+  conns s = [] /\ mirrors s = [] /\ gids s = [] /\ laddrs s = [] /\ forall ip, getz ip (ipc s) = 0.
